@@ -846,11 +846,13 @@ static const uint8_t *unmarshal_one_env(
         if (offset > 0) {
             Janet fiberv;
             /* On stack variant */
+            /* Negative offset indicates untrusted input. Set before the fiber is read: its frame
+             * may refer back to this environment. */
+            env->offset = -offset;
+            env->length = length;
             data = unmarshal_one(st, data, &fiberv, flags);
             janet_asserttype(fiberv, JANET_FIBER, st);
             env->as.fiber = janet_unwrap_fiber(fiberv);
-            /* Negative offset indicates untrusted input */
-            env->offset = -offset;
         } else {
             /* Off stack variant */
             if (length == 0) {
@@ -1137,6 +1139,10 @@ static const uint8_t *unmarshal_one_fiber(
         janet_asserttype(funcv, JANET_FUNCTION, st);
         func = janet_unwrap_function(funcv);
         def = func->def;
+        if (NULL == def) {
+            /* a reference to a function that is still being unmarshalled */
+            janet_panic("fiber stackframe has incomplete function");
+        }
 
         /* Check env */
         if (frameflags & JANET_STACKFRAME_HASENV) {
@@ -1154,6 +1160,33 @@ static const uint8_t *unmarshal_one_fiber(
         }
         if ((int32_t)(prevframe + JANET_FRAME_SIZE) > stack) {
             janet_panic("fiber stackframe does not align with previous frame");
+        }
+        /* Only the two flags the interpreter knows, and the bottom frame must be an entrance
+         * frame, otherwise returning from it pops into a frame that does not exist. */
+        if ((frameflags & ~(JANET_STACKFRAME_TAILCALL | JANET_STACKFRAME_ENTRANCE)) ||
+                (prevframe == 0 && !(frameflags & JANET_STACKFRAME_ENTRANCE))) {
+            janet_panic("fiber stackframe has invalid flags");
+        }
+        /* When control comes back to this frame, the interpreter stores a value in the A operand
+         * of the instruction at pc and continues with the next instruction. (The frame on top of a
+         * fiber that has not started yet is entered at pc without either.) */
+        {
+            int is_top = (stack == frame);
+            int no_useval = is_top && (fiber_flags & JANET_FIBER_RESUME_NO_USEVAL);
+            int no_skip = is_top && (fiber_flags & JANET_FIBER_RESUME_NO_SKIP);
+            uint32_t instr = def->bytecode[pcdiff];
+            if (!no_useval && (int32_t)((instr >> 8) & 0xFF) >= def->slotcount) {
+                janet_panic("fiber stackframe has invalid pc");
+            }
+            if (!no_skip && (instr & 0xFF) != JOP_TAILCALL && pcdiff + 1 >= def->bytecode_length) {
+                janet_panic("fiber stackframe has invalid pc");
+            }
+        }
+        /* The environment of a frame is the on-stack environment of exactly this frame */
+        if (env != NULL &&
+                (env->offset >= 0 || (env->as.fiber != NULL && env->as.fiber != fiber) ||
+                 -env->offset != stack || env->length != def->slotcount)) {
+            janet_panic("fiber stackframe has invalid environment");
         }
 
         /* Get stack items */
@@ -1207,6 +1240,13 @@ static const uint8_t *unmarshal_one_fiber(
     int status = janet_fiber_status(fiber);
     if (status < 0 || status > JANET_STATUS_ALIVE) {
         janet_panic("invalid fiber status");
+    }
+    /* A fiber without any stack frame has finished: it must not look resumable */
+    if (frame == 0 && status != JANET_STATUS_DEAD && status != JANET_STATUS_ERROR) {
+        fiber->frame = 0;
+        fiber->flags = 0;
+        janet_fiber_set_status(fiber, JANET_STATUS_DEAD);
+        janet_panic("fiber has no stack frame but is not finished");
     }
 
     /* Return data */
